@@ -43,22 +43,24 @@ const generatorAddendum = "Generators additionally draw: words, numbers (n-1, n,
 	"(parsed at start-up, per ecosystem package); pairs of ordinary x.y.z texts that collide under FNV-1/FNV-1a 32, Adler-32, folded FNV-64 and texts whose java31/djb2/sdbm/FNV hash is " +
 	"MinInt32, 0, MaxInt32, 0xFFFFFFFF; carry numbers (199, 2999), date/time-shaped numbers, log-uniform magnitudes, 2^k-1 / 2^k / 2^k+1 runs, UTF-8 and code-point boundaries, " +
 	"strconv-only number spellings (+1, 0x1, 1e1, 1_0); alignment ladders (one dense neighbourhood with the first number lengthened by 1..17 digits); hash-like words with prefix relatives; " +
-	"maven unique snapshots; Go pseudo-versions at boundary instants; two members joined by a blank-delimited connective."
+	"maven unique snapshots; Go pseudo-versions at boundary instants and with numeric base tags; two members joined by a blank-delimited connective; strings sampled from the regular expressions of " +
+	"the ecosystem package and their relatives; literals of the tree that the baseline dictionary does not have (a later change introduced them) glued before / after / between members; " +
+	"64-bit FNV collisions with common suffixes; identifier-kind families; trailing-zero relatives (1.1 / 1.10 / 1.100)."
 
 var ruleAddenda = map[string]string{
-	"C01": "Volume: per ecosystem 560 000 (thorough 2.2 M) distinct versions (counter written into a number slot / a word slot of accepted versions) are parsed and KEPT; then transitivity over kept objects (i, i+1, i+d) for d in {1,2,2^8,2^10..2^20 (+-1)}, kept object == fresh parse of its text, and the comparison matrix / String of 60 sentinels parsed before the volume is unchanged.",
-	"C02": "Also: colliding-hash pairs used as consecutive bounds; OR of 3-5 spans over neighbouring bounds (overlapping / touching / one-class gap, shuffled); range volume: 300 000 (thorough 1.5 M) distinct single-comparator ranges parsed and kept and asked about the kept bounds next to their own; 16 sentinel range objects asked 64 questions, then 6 000 (60 000) further distinct versions, then the 64 again.",
+	"C01": "Volume: per ecosystem 560 000 (thorough 2.2 M) distinct versions (counter written into a number slot / a word slot of accepted versions) are parsed and KEPT; then transitivity over kept objects (i, i+1, i+d) for d in {1,2,2^8,2^10..2^20 (+-1)}, kept object == fresh parse of its text, and the comparison matrix / String of 60 sentinels parsed before the volume is unchanged; 600 000 plain tuples with markers are kept and pairs that agree in a digest-like integer field of the parsed object (read by reflection) are compared; the volume is raised above size thresholds found as new number literals in the sources.",
+	"C02": "Also: colliding-hash pairs used as consecutive bounds; OR of 3-5 spans over neighbouring bounds (overlapping / touching / one-class gap, shuffled); range volume: 300 000 (thorough 1.5 M) distinct single-comparator ranges parsed and kept and asked about the kept bounds next to their own; 16 sentinel range objects asked 64 questions, then 6 000 (60 000) further distinct versions, then the 64 again; AND lists of 8..40 exclusions, OR enumerations of 16..80 exact versions.",
 	"C03": "Also: carry, date-shaped, log-uniform, source-literal and encoding-boundary numbers as components; calendar triples around a month end; deterministic sweep of every position of every arity over 2^e-1 / 2^e (e=1..31) and the encoding boundaries.",
-	"C04": "Also: half of the ranges are first evaluated under another scheme (foreign-scheme pretouch); twin questions (the same two argument texts glued together, split 1-2 characters elsewhere) are asked right after the original and judged by the same oracle.",
-	"C05": "Base components also from carry / date-shaped / log-uniform / source-literal numbers. Volume: 70 000 (thorough 1.1 M) distinct shorthand constraints parsed and used; the first 400 bases are judged against the table before and after, judgements that fail only afterwards are violations.",
-	"C06": "CLI: additionally every lower-case word of a string literal in cmd/*.go is tried as sub-command with every argument shape (no / one / several versions; a range with versions inside, outside, both).",
+	"C04": "Also: half of the ranges are first evaluated under another scheme (foreign-scheme pretouch); twin questions (the same two argument texts glued together, split 1-2 characters elsewhere) are asked right after the original and judged by the same oracle; rejected siblings (the same constraints plus one the ecosystem rejects; a rejected range that excludes the probe) are evaluated right before the question.",
+	"C05": "Base components also from carry / date-shaped / log-uniform / source-literal numbers. Volume: 70 000 (thorough 1.1 M) distinct shorthand constraints parsed and used; the first 400 bases are judged against the table before and after, judgements that fail only afterwards are violations. Probes include every identifier-wise prefix of the base's pre-release; composer tilde / caret bases with a stability suffix.",
+	"C06": "CLI: additionally every lower-case word of a string literal in cmd/*.go is tried as sub-command with every argument shape (no / one / several versions; a range with versions inside, outside, both). Hostile workload: Unicode sweep (~900 code points at the same position of sibling strings), punctuation literals of the sources around versions, new source literals glued to versions.",
 	"C07": "Also lists of 65..257 elements, every other list drawn from one neighbourhood of the pool's sorted order, every fifth list one whole generator cluster.",
 	"C15": "Also sort lists of 63..130 elements and every fifth argv re-written in a transport encoding (percent-encoding of comparators / of everything / lower-case hex, HTML entities, \\uXXXX, form encoding).",
-	"C16": "Also: foreign-scheme pretouch (the same constraint text first under two other schemes) and twin-question pretouch before the base spelling is evaluated.",
-	"C17": "Also two-point corruptions: a constraint slot, prefix or suffix made only of blanks other than the ASCII space (\\t \\n \\v \\f \\r U+0085 U+00A0 U+2003 U+2028 U+3000 U+FEFF NUL DEL); probes taken verbatim from the range.",
+	"C16": "Also: foreign-scheme pretouch (the same constraint text first under two other schemes) twin-question pretouch and rejected-sibling pretouch before the base spelling is evaluated; a base spelling that is rejected while a respelling is answered counts as a difference.",
+	"C17": "Also two-point corruptions: a constraint slot, prefix or suffix made only of blanks other than the ASCII space (\\t \\n \\v \\f \\r U+0085 U+00A0 U+2003 U+2028 U+3000 U+FEFF NUL DEL); probes taken verbatim from the range; lists of 16..100 constraints with one operator throughout and one damaged entry.",
 	"C18": "Also: directed length sweep (spellings of exactly n-2..n+1 bytes for every number literal 12<=n<=1100 of the sources) and ranges built from the sources' punctuation literals placed before / after / around a pool member cut to a shorter precision, the uncut member being a probe.",
-	"C19": "Also: (a) cold-start children - 3 (thorough 12) fresh race-build processes per ecosystem whose FIRST library calls are made by 8 goroutines at once; (b) hot-object storm in the fast build - 16 goroutines inside ONE shared object (version, range, ecosystem value as parser, one VERS body under all schemes) with every result compared to the sequential answer; (c) volume - 560 000 distinct versions and 120 000 distinct ranges kept, sentinels and first questions re-asked; (d) a change of an operand's memory counts only when a caller can observe it (String / Compare / Contains differ from a fresh parse); (e) the cross-scheme history contains 4-8 constraint ranges and twin questions.",
-	"C20": "Also: every 12th range OBJECT answers 1 500 (thorough 20 000) further distinct versions between two passes over the pool; an answer that changes is a violation (membership depends on earlier questions).",
+	"C19": "Also: (a) cold-start children - 3 (thorough 12) fresh race-build processes per ecosystem whose FIRST library calls are made by 8 goroutines at once; (b) hot-object storm in the fast build - 16 goroutines inside ONE shared object (version, range, ecosystem value as parser, one VERS body under all schemes) with every result compared to the sequential answer; (c) volume - 560 000 distinct versions and 120 000 distinct ranges kept, sentinels and first questions re-asked; (d) a change of an operand's memory counts only when a caller can observe it (String / Compare / Contains differ from a fresh parse); (e) the cross-scheme history contains 4-8 constraint ranges and twin questions; (f) wide storm - 512 (thorough 2048) goroutines compare their own long siblings with GOMAXPROCS raised to 256.",
+	"C20": "Also: every 12th range OBJECT answers 1 500 (thorough 20 000) further distinct versions between two passes over the pool; an answer that changes is a violation (membership depends on earlier questions); OR enumerations of 16..40 exact pool members.",
 }
 
 // Pool is a set of textually distinct accepted versions.
